@@ -134,4 +134,98 @@ theorem pop_hidden (cls : Cls) (kvs : List (Str × Val)) (q : Pos) (kcls : Cls) 
     simp only [delete_rec_hidden cls kvs q kcls nkvs name old e t' fuel hp hget hn hl hs he hdel hf]
     rfl
 
+/-! ### the single value is an element of a list: `…h[i][e]` -/
+
+/-- the search for `//…P…[e]` where `P` ends in a list index and holds the single value `old`, `e` denoting `0` or `-1`:
+FOUND, the parent is the hidden list around the element -/
+theorem hidden_elem_find (cls : Cls) (kvs : List (Str × Val)) (q0 : Pos) (i : Nat) (old : Val) (e : IdxSp) (fuel : Nat)
+    (hp : PlainPos (q0 ++ [Seg.idx i])) (hget : getAt (.dict cls kvs) (q0 ++ [Seg.idx i]) = some old)
+    (hs : isList old = false) (he : e.val = 0 ∨ e.val = -1) (hf : fuel ≥ 2 * (q0.length + 1) + 1) :
+    findD fuel (.dict cls kvs) [] false true (mergedToks (q0 ++ [Seg.idx i]) ++ [bracket e.text]) (.at []) true slash
+      = .ok (.dict cls kvs,
+        ({ parent := .wrap (.at (q0 ++ [Seg.idx i])), nameIdx := some (bracket (intStr e.val)),
+           value := old, found := slash ++ renderPos (q0 ++ [Seg.idx i]), notFound := Option.none } : Res)) := by
+  have hlen := mergedToks_length_le (q0 ++ [Seg.idx i])
+  simp only [List.length_append, List.length_cons, List.length_nil] at hlen
+  obtain ⟨f', e', h1, _, hwalk⟩ := find_walk (.dict cls kvs) true (spellsF_merged (q0 ++ [Seg.idx i]) _ _ hp hget)
+    [bracket e.text] (by simp) fuel [] slash true rfl (by omega)
+  obtain ⟨f, rfl⟩ : ∃ f, f' = f + 1 := ⟨f' - 1, by omega⟩
+  rw [hwalk, List.nil_append]
+  exact hidden_find_last f _ e' true _ _ _ _ _ old hget hs e.idxTok he
+
+theorem hidden_elem_tokenize (q0 : Pos) (i : Nat) (e : IdxSp) (hp : PlainPos (q0 ++ [Seg.idx i])) :
+    tokenize (slash ++ renderPos (q0 ++ [Seg.idx i]) ++ bracket e.text) = mergedToks (q0 ++ [Seg.idx i]) ++ [bracket e.text] := by
+  have := tokenize_idx_first_path' q0 i hp e.text (hidden_cleanIdx e) [] (by simp)
+  simpa [renderCStep] using this
+
+/-- item access through `…h[i][e]` on the element `old` that is not a list: `old` -/
+theorem getItem_hidden_elem (cls : Cls) (kvs : List (Str × Val)) (q0 : Pos) (i : Nat) (old : Val) (e : IdxSp) (fuel : Nat)
+    (hp : PlainPos (q0 ++ [Seg.idx i])) (hget : getAt (.dict cls kvs) (q0 ++ [Seg.idx i]) = some old)
+    (hs : isList old = false) (he : e.val = 0 ∨ e.val = -1) (hf : fuel ≥ 2 * (q0.length + 1) + 1) :
+    getItem fuel (.dict cls kvs) (slash ++ renderPos (q0 ++ [Seg.idx i]) ++ bracket e.text) = (.dict cls kvs, .ok old) := by
+  have hfind := hidden_elem_find cls kvs q0 i old e fuel hp hget hs he hf
+  unfold getItem getCore
+  simp only [show startsWith (slash ++ renderPos (q0 ++ [Seg.idx i]) ++ bracket e.text) ['?'] = false by
+      simp [slash, startsWith, List.append_assoc],
+    Bool.false_eq_true, if_false,
+    show hasPathChar (slash ++ renderPos (q0 ++ [Seg.idx i]) ++ bracket e.text) = true by simp [hasPathChar, slash],
+    if_true, hidden_elem_tokenize q0 i e hp, hfind, Res.isFound]
+
+/-- **`delete('//…h[i][e]', recursively)`, `e` denoting `0` or `-1`, on an element that is not a list** is `delete` of the
+canonical path `//…h[i]` of that element: the index step on the hidden list is passed over, the loop goes on with the
+shorter path, still as its first round -/
+theorem delete_hidden_elem (cls : Cls) (kvs : List (Str × Val)) (q0 : Pos) (i : Nat) (old : Val) (e : IdxSp) (fuel : Nat)
+    (r : Bool)
+    (hp : PlainPos (q0 ++ [Seg.idx i])) (hget : getAt (.dict cls kvs) (q0 ++ [Seg.idx i]) = some old)
+    (hs : isList old = false) (he : e.val = 0 ∨ e.val = -1) (hf : fuel ≥ 2 * (q0.length + 1) + 1) :
+    delete fuel (.dict cls kvs) (slash ++ renderPos (q0 ++ [Seg.idx i]) ++ bracket e.text) r
+      = delete fuel (.dict cls kvs) (slash ++ renderPos (q0 ++ [Seg.idx i])) r := by
+  have hfind := hidden_elem_find cls kvs q0 i old e fuel hp hget hs he hf
+  have htok := hidden_elem_tokenize q0 i e hp
+  have htok2 : tokenize (slash ++ renderPos (q0 ++ [Seg.idx i])) = mergedToks (q0 ++ [Seg.idx i]) := tokenize_render _ hp
+  have hlen : (mergedToks (q0 ++ [Seg.idx i]) ++ [bracket e.text]).length = (mergedToks (q0 ++ [Seg.idx i])).length + 1 := by simp
+  have htake : (mergedToks (q0 ++ [Seg.idx i]) ++ [bracket e.text]).take ((mergedToks (q0 ++ [Seg.idx i])).length + 1)
+      = mergedToks (q0 ++ [Seg.idx i]) ++ [bracket e.text] := by
+    rw [List.take_of_length_le (by simp)]
+  have hgetD : (mergedToks (q0 ++ [Seg.idx i]) ++ [bracket e.text]).getD (mergedToks (q0 ++ [Seg.idx i])).length []
+      = bracket e.text := by
+    simp [List.getD_eq_getElem?_getD]
+  have hdp : delPlace fuel (.dict cls kvs) (bracket e.text)
+      { parent := .wrap (.at (q0 ++ [Seg.idx i])), nameIdx := some (bracket (intStr e.val)), value := old,
+        found := slash ++ renderPos (q0 ++ [Seg.idx i]), notFound := Option.none } = .ok Option.none := by
+    simp only [delPlace, isWrap, Res.isFound, Bool.and_self, if_true, e.idxTok.split, List.isEmpty_nil]
+  unfold delete deleteTokens
+  simp only [show stripQ (slash ++ renderPos (q0 ++ [Seg.idx i]) ++ bracket e.text)
+      = slash ++ renderPos (q0 ++ [Seg.idx i]) ++ bracket e.text by
+    apply stripQ_noQ; simp [slash, startsWith, List.append_assoc], stripQ_slash, htok, htok2, hlen]
+  rw [deleteLoop, htake, hfind]
+  simp only [hgetD, hdp]
+  exact deleteLoop_init fuel r _ _ _ true
+
+/-- `pop` through `…h[i][e]` is `pop` of the canonical path `…h[i]` -/
+theorem pop_hidden_elem (cls : Cls) (kvs : List (Str × Val)) (q0 : Pos) (i : Nat) (old d : Val) (e : IdxSp) (fuel : Nat)
+    (r : Bool)
+    (hp : PlainPos (q0 ++ [Seg.idx i])) (hget : getAt (.dict cls kvs) (q0 ++ [Seg.idx i]) = some old)
+    (hs : isList old = false) (he : e.val = 0 ∨ e.val = -1) (hf : fuel ≥ 2 * (q0.length + 1) + 1) :
+    pop fuel (.dict cls kvs) (slash ++ renderPos (q0 ++ [Seg.idx i]) ++ bracket e.text) d r
+      = .ok ((delete fuel (.dict cls kvs) (slash ++ renderPos (q0 ++ [Seg.idx i])) r).1, old) := by
+  have hsq : stripQ (slash ++ renderPos (q0 ++ [Seg.idx i]) ++ bracket e.text)
+      = slash ++ renderPos (q0 ++ [Seg.idx i]) ++ bracket e.text := by
+    apply stripQ_noQ; simp [slash, startsWith, List.append_assoc]
+  have hsp := spells_merged _ (.dict cls kvs) old hp hget
+  have hlen := mergedToks_length_le (q0 ++ [Seg.idx i])
+  simp only [List.length_append, List.length_cons, List.length_nil] at hlen
+  obtain ⟨t', hdel⟩ := delAt_isSome' (q0 ++ [Seg.idx i]) _ old (by simp) hget
+  have htok2 : tokenize (slash ++ renderPos (q0 ++ [Seg.idx i])) = mergedToks (q0 ++ [Seg.idx i]) := tokenize_render _ hp
+  have hcan : ∃ t2, delete fuel (.dict cls kvs) (slash ++ renderPos (q0 ++ [Seg.idx i])) r = (t2, .ok ()) := by
+    unfold delete deleteTokens
+    simp only [stripQ_slash, htok2]
+    cases r with
+    | false => exact ⟨_, deleteLoop_spelled fuel _ _ _ old t' hsp (mergedToks_ne_nil _ (by simp)) hdel (by omega)⟩
+    | true => exact ⟨_, deleteLoop_rec_spelled fuel _ _ _ old t' hsp (mergedToks_ne_nil _ (by simp)) hdel (by omega)⟩
+  obtain ⟨t2, ht2⟩ := hcan
+  unfold pop
+  rw [hsq, getItem_hidden_elem cls kvs q0 i old e fuel hp hget hs he hf]
+  simp only [delete_hidden_elem cls kvs q0 i old e fuel r hp hget hs he hf, ht2]
+
 end N0.XPath
